@@ -228,3 +228,122 @@ func exoticInputs(entry string, r *kit.Rng) ([][]byte, []string) {
 	}
 	return append(ex, lg...), kinds
 }
+
+/* ---------- fixed edge inputs: run in front of the random part of EVERY stream, on every run ---------- */
+
+// edgeAtoms: format-independent edge texts: nothing, white space in all mixtures, lone
+// delimiters, brackets / quotes / commas / colons only, one digit, one unit, empty lists.
+func edgeAtoms() []string {
+	out := []string{""}
+	ws := []string{" ", "\t", "\r", "\n"}
+	// every mixture of the four ASCII blanks up to three bytes
+	level := []string{""}
+	for n := 1; n <= 3; n++ {
+		var next []string
+		for _, p := range level {
+			for _, w := range ws {
+				next = append(next, p+w)
+			}
+		}
+		out = append(out, next...)
+		level = next
+	}
+	// four to eight bytes: runs of one blank, alternations, the usual line ends, blanks Go's unicode.IsSpace knows beyond ASCII
+	uni := []string{"\u00a0", "\u2028", "\u0085", "\v", "\f", "\u3000", "\ufeff"}
+	for n := 4; n <= 8; n++ {
+		for _, w := range ws {
+			out = append(out, strings.Repeat(w, n))
+		}
+		out = append(out, strings.Repeat(" \t", n/2), strings.Repeat("\r\n", n/2), (" \r\n " + strings.Repeat(" ", 8))[:n], ("\t\n" + strings.Repeat("\t \n", 3))[:n])
+	}
+	for _, u := range uni {
+		out = append(out, u, u+u, " "+u, u+" ", " "+u+" ", u+"\n", "\t"+u+"\r\n", strings.Repeat(u, 4))
+	}
+	// a lone delimiter of every kind, doubled, between blanks
+	for _, d := range []string{",", ":", ";", "[", "]", "{", "}", "(", ")", "\"", "'", "`", "/", "\\", "@", "#", "=", "-", "+", ".", "*", "?", "&", "%", "|", "<", ">", "\x00", "\x1f", "\x7f", "\xff", "\xc2"} {
+		out = append(out, d, d+d, " "+d, d+" ", " "+d+" ", d+"\n", "\n"+d)
+	}
+	out = append(out,
+		"[]", "[ ]", "[\t]", "[\n]", "[  ]", " []", "[] ", " [] ", "[]\n", "[,]", "[,,]", "[ , ]", "[:]", "[]:", "[]:]", "[[", "]]", "][", "[[]]", "[]]", "[[]", "[ ", " ]",
+		"{}", "{ }", "{}\n", "{{", "}}", "{,}", "{:}", "{\"\"}", "{\"\":}", "()", "\"\"", "\" \"", "''", "\"\"\"", "\",\"", "\":\"",
+		"::", ":::", "::::", ":::::", ",,", ",,,", ",,,,,,,,,,,", ",,,,,,,,,,,,", ": :", ", ,", ":,", ",:", ";;", "//", "://", "@@", "##", "--", "-+", "..", "...", "=,", "=:",
+		"0", "1", "9", "-0", "-1", "+1", "00", "0.", ".0", "0.0", "1e", "e1", "0x", "1_", "١", "１",
+		"s", "ms", "ns", "us", "µs", "μs", "m", "h", "d", "B", "b", "K", "KB", "kb", "MB", "GB", "k", "M", "G", "T", "P", "E", "Z",
+		"0s", "1s", "1ms", "0B", "1B", "1K", "1/", "/1", "1/s", "/s", "0/", "0/0", "1/0", "/", "1:", ":1", "1:1", "a:", ":a", "a", "A", "Z", "aa", "AB", "GET", "GET ", "GET\n",
+		"[0]", "[ 0 ]", "[0,]", "[,0]", "[0,0]", "[1ms]", "[0,1ms]", "[s]", "[,1ms]", "[1ms,]", "[1ms,,2ms]", "[ 1ms , 2ms ]",
+		"null", "true", "nil", "NaN", "inf", "infinity", "-inf", "\r", "\r\r", "\n\n\n\n", "\r\n\r\n", "\n \n", "\xef\xbb\xbf", "\xef\xbb\xbf\n", "\xff\xfe", "\x00\x00", "\x00\n")
+	return out
+}
+
+// edgeInputs: the atoms as they are and — for the line and record formats — closed by a line end
+// and put behind a valid first line, plus the delimiters the entry's own format knows.
+func edgeInputs(entry string) [][]byte {
+	atoms := edgeAtoms()
+	var out [][]byte
+	for _, a := range atoms {
+		out = append(out, []byte(a))
+	}
+	var own, firstLine []string
+	switch entry {
+	case "http_targeter":
+		firstLine = []string{"GET http://x/\n"}
+		own = []string{"GET", "GET ", "GET  ", "GET\t", "GET\n", "G", "G ", "GE T", "get http://x/", "GET http://x/", "GET http://x/\n:", "GET http://x/\n: ", "GET http://x/\n:v", "GET http://x/\nK:", "GET http://x/\nK",
+			"GET http://x/\n@", "GET http://x/\n@\n", "GET http://x/\n@ ", "@", "@\n", "@x", "#", "#\n", "# c", "# c\n", "//", "// c\n", "GET http://x/\n#", "GET http://x/\n# c", "GET http://x/\n\n#", "#\n#", "GET http://x/\n\n", "ABC", "ABC\n", "A", "A\n", "AZ "}
+	case "json_targeter":
+		firstLine = []string{`{"method":"GET","url":"http://x/"}` + "\n"}
+		own = []string{"{}", "{}\n", "{}{}", "[]", "[]\n", "null", "null\n", "\"\"", "0", "{\"method\":\"\"}", "{\"method\":\"GET\"}", "{\"url\":\"\"}", "{\"method\":\"GET\",\"url\":\"\"}", "{\"method\":\"GET\",\"url\":\"http://x/\",\"header\":{}}",
+			"{\"method\":\"GET\",\"url\":\"http://x/\",\"header\":{\"A\":[]}}", "{\"method\":\"GET\",\"url\":\"http://x/\",\"header\":{\"A\":[1]}}", "{\"method\":\"GET\",\"url\":\"http://x/\",\"header\":{\"A\":\"v\"}}",
+			"{\"method\":\"GET\",\"url\":\"http://x/\",\"header\":{\"A\":[null]}}", "{\"method\":\"GET\",\"url\":\"http://x/\",\"header\":{\"A\":[\"v\",1]}}", "{\"method\":\"GET\",\"url\":\"http://x/\",\"header\":{\"A\":null}}", "{\"method\":\"GET\",\"url\":\"http://x/\",\"header\":null}",
+			"{\"method\":\"GET\",\"url\":\"http://x/\",\"body\":\"\"}", "{\"method\":\"GET\",\"url\":\"http://x/\",\"body\":\"=\"}", "{\"method\":1}", "{\"method\":null,\"url\":null}"}
+	case "csv", "auto":
+		firstLine = []string{"1,200,1,0,0,,,a,0,GET,http://x/,\n"}
+		own = []string{"1,200,1,0,0,,,a,0,GET,http://x/,", "1,200,1,0,0,,,a,0,GET,http://x/", "1,200,1,0,0,,,a,0,GET", "1,200,1,0,0,,,a", "1,200,1,0,0,,,a,0", "1,200,1,0,0,,GET,http://x/,a,0,", "1,200,1,0,0,,,a,0,GET,http://x/,,",
+			",,,,,,,,,,,\n", "0,0,0,0,0,,,,,0,,\n", "1,200,1,0,0,,,a,0,GET,http://x/,Og==\n", "1,200,1,0,0,,,a,0,GET,http://x/,QTo=\n", "1,200,1,0,0,,,a,0,GET,http://x/,QQ==\n", "1,200,1,0,0,,,a,0,GET,http://x/,QTogdgo=\n",
+			"1,200,1,0,0,,,a,0,GET,http://x/,QTogdgpCOg==\n", "1,200,1,0,0,,,a,0,GET,http://x/,Cg==\n", "1,200,1,0,0,,,a,0,GET,http://x/,DQo=\n", "1,200,1,0,0,,,a,0,GET,http://x/,QTogdg0KDQo=\n", "1,200,1,0,0,,=,a,0,GET,http://x/,=\n", "\"", "\"\n", "\"\"\"", "a\"b"}
+		if entry == "csv" {
+			break
+		}
+		fallthrough
+	case "json":
+		firstLine = append(firstLine, `{"attack":"a","seq":0,"code":200,"timestamp":"2020-01-01T00:00:00Z","latency":1,"bytes_out":0,"bytes_in":0,"error":"","body":null,"method":"GET","url":"http://x/","headers":null}`+"\n")
+		own = append(own, "{}", "{}\n", "{}{}", "[]", "null", "{\"timestamp\":1}", "{\"timestamp\":\"\"}", "{\"timestamp\":\"\\\"\"}", "{\"timestamp\":null}", "{\"timestamp\":\"1\"}", "{\"timestamp\":\"2020-01-01T00:00:00Z\"}", "{\"timestamp\":0.5}", "{\"timestamp\":{}}",
+			"{\"timestamp\":[]}", "{\"timestamp\":true}", "{\"timestamp\":\"T\"}", "{\"timestamp\":-}", "{\"latency\":\"\"}", "{\"code\":-1}", "{\"code\":65536}", "{\"body\":\"=\"}", "{\"headers\":{\"A\":[1]}}", "{\"headers\":{\"A\":\"v\"}}", "{\"headers\":[]}", "{\"seq\":-1}", "{\"seq\":18446744073709551616}")
+	case "gob":
+		own = []string{"\x00", "\x01\x00", "\x03\xff\x82\x00", "\x7f", "\xff\xff\xff\xff", "\x80", "\xf8\x00"}
+	case "buckets":
+		own = []string{"[0,1ms]", " [0,1ms]", "[0,1ms] ", " [0,1ms] ", "\t[0,1ms]\n", "[0,1ms]]", "[[0,1ms]", "[0;1ms]", "[0 1ms]", "[0,1ms,]", "[,]", "[ , ]", "[0,,1ms]", "[-1ms]", "[1ms,0]", "[1ms,1ms]", "[0,0]", "[1]", "[ms]", "[1 ms]", "0,1ms", "[0,1ms", "0,1ms]", "(0,1ms)", "{0,1ms}", "[\u00a00,1ms]", "[0,1ms\u2028]"}
+	}
+	for _, o := range own {
+		out = append(out, []byte(o))
+	}
+	if len(firstLine) > 0 {
+		for _, fl := range firstLine {
+			for _, a := range atoms {
+				if len(a) <= 4 { // the short atoms behind and in front of a valid first record, and closed by a line end
+					out = append(out, []byte(fl+a), []byte(fl+a+"\n"), []byte(a+"\n"+fl))
+				}
+			}
+		}
+	}
+	return out
+}
+
+// edgeFlagValues: the fixed list in front of every flag value stream.
+func edgeFlagValues(name string) []string {
+	out := edgeAtoms()
+	switch name {
+	case "flag_rate":
+		out = append(out, "1/", "1/ ", "1/\t", "/1s", "1//", "1/1", "1/s/", "1/1s/1s", " 1/s", "1/s ", "1 /s", "1/ s", "0/s", "0/0s", "1/0s", "1/-1s", "-1/s", "+1/s", "1/+1s", "1/.s", "1/.5s", "1/1.s", "1/µ", "1/µs", "1/μs", "1/d", "1/ms1", "infinity/", "/infinity", "infinity/s", "Infinity", "INFINITY", "inf")
+	case "flag_header":
+		out = append(out, "K:v", "K: v", "K :v", " K:v", "K:v ", "K::", ":K", "K:\x00", "\x00:v", "K\n:v", "K:v\n", "K:v\r\nX:y")
+	case "flag_max_body":
+		out = append(out, "-1", "-1 ", " -1", "-01", "-1B", "-2", "0", "00", "0B", "0 B", "1 B", "1  B", "1\tB", "1B ", " 1B", "1.B", "1.0B", ".5B", "0.0", "0.00000000000000000000", "1.10000000000000000000MB", "18446744073709551615", "18446744073709551616", "9223372036854775807", "9223372036854775808", "16EB", "8EB", "1kB", "1Kb", "1KiB", "1 kilobyte", "1 kilo", "1 k")
+	case "flag_connect_to":
+		out = append(out, "a:1:b:2", "a:1:b:", "a::b:2", ":1:b:2", "a:1::2", "a:1:b:2:", ":a:1:b:2", "[::1]:1:b:2", "a:1:[::1]:2", "[]:1:b:2", "a:1:[]:2", "[:1:b:2", "]:1:b:2", "a:1:b:2\n", " a:1:b:2", "a:1:b:2 ", "a:1:b:-1", "a:1:b:65536", "a:1:b:99999999999999999999")
+	case "flag_dns_ttl":
+		out = append(out, "-1", "-1 ", "-01", "-1s", "-1ns", "0", "0s", "00", "1", "1s", "1 s", "1s ", " 1s", "1ss", "1s1", "1.s", ".s", ".1s", "1.1.1s", "9223372036854775807ns", "9223372036854775808ns", "2562047h47m16.854775807s", "2562047h47m16.854775808s", "1µs", "1μs", "1us")
+	case "flag_resolvers":
+		out = append(out, "1.1.1.1", "1.1.1.1:", "1.1.1.1:53", "1.1.1.1:053", "1.1.1.1:0", "1.1.1.1:65536", ":53", "[::1]", "[::1]:", "[::1]:53", "::1", "::1:53", "[::1]x", "[::1]:x", "[::1]53", "[]", "[]:53", "[:]:53", "[", "]", "[[::1]]:53", "[::1", "::1]", "[::1]]", "[::1]:53:", "1.1.1.1,", ",1.1.1.1", "1.1.1.1,,8.8.8.8", "1.1.1.1, 8.8.8.8", " 1.1.1.1", "1.1.1.1 ", "[::1%lo]:53", "[fe80::1%]:53", "::", "[::]", ":::", "::::53")
+	}
+	return out
+}
